@@ -100,6 +100,7 @@ ELEMS = [
     "<div>x</div>", '<span class="admonition">y</span>', "a <b>c</b> d", "<!-- c -->", '<div class="admonition">\n<p>t</p>', '<div class="x">',
     "<?php x ?>", "<p>x</p>", "<table><tr><td>*a*</td></tr></table>", '<div class="admonition"', "<img", "text before <i>x</i>", "<b>bold</b> text after",
     '<video src="a.png"></video>', "<IMG2 src=a>", "x <style> y", "x <script>alert(1) y", "x <textarea y", "x <b", "<div class='admonitions'>\n<p>q</p>\n</div>", "&amp; <br> &#38;",
+    "<!---->", "<!-- -->\n<?>", "<?x ?>",  # blank comments / processing instructions are content too: a block holding one is not 'entirely convertible'
     # an end tag that closes an ancestor while an inner element is still open: what follows is a top-level sibling again
     '<div class="admonition">\n<p>a <b>x</p>\n</div>\n<span>tail</span>', '<div class="admonition">\n<ul><li>a</ul>\n</div>\n<p>after</p>', "<p>a <b>x</p>\n<img src=\"a.png\">",
 ]
@@ -367,6 +368,7 @@ TITLES = [("p-title", '<p class="title">T *t*</p>', "T *t*"), ("div-title", '<di
           ("p-admonition-title", '<p class="admonition-title">T3</p>', "T3"), ("none", "", "Note"),
           ("p-title-tab", '<p class="title\tbig">T4</p>', "T4"), ("p-title-second-lf", '<p class="big\ntitle">T5</p>', "T5"),
           # classes that merely CONTAIN the word: the element is body text, the title is the default one
+          ("p-title-elems", '<p class="title"><em>T8</em> <strong>w</strong></p>', "<em>T8</em> <strong>w</strong>"),
           ("p-subtitle", '<p class="subtitle">S6</p>', ("Note", "S6")), ("p-card-title", '<p class="card-title untitled">S7</p>', ("Note", "S7"))]
 BODIES = [([], ""), (["body *em* `c`"], "body *em* `c`\n"), (["one", "two **s**"], "one\n\ntwo **s**\n"),
           (["- a\n- b"], "- a\n- b\n"), (["[l](u) $x$ {#id}"], "[l](u) $x$ {#id}\n"),
